@@ -6,6 +6,7 @@ use vstd::prelude::*;
 verus! {
 
 //@@ gsubst `de::Error::custom(__E1)` => `err_custom()` rule=R9
+//@@ gsubst `.starts_with(` => `.starts_with_s(` rule=R16
 //@@ trusted written by tools/mkerrcond.py from a table: the error-condition symbols are taken from the AMQP 1.0 specification text, not from the code; Symbol is a stand-in holding its text (Symbol::from(&str) / as_str keep it); Symbol::deserialize (serde_amqp: units READERS / DEENTRY) is a stand-in that yields ANY symbol or fails; R39 for the matches over string literals
 pub struct Symbol { pub text: Ghost<Seq<char>> }
 impl Symbol {
@@ -20,6 +21,9 @@ impl Symbol {
 /// the deserializer positioned at a symbol: whether a symbol can be read there, and its text
 pub struct DeS { pub ok: Ghost<bool>, pub text: Ghost<Seq<char>> }
 pub struct ErrS { pub k: u8 }
+/// str::starts_with(&str) (this vstd has no specification for it): present so that a change introducing a prefix test is decided
+pub trait StartsWithS { fn starts_with_s(&self, p: &str) -> (r: bool) ensures r == (p@.len() <= self.chars().len() && self.chars().subrange(0, p@.len() as int) == p@); spec fn chars(&self) -> Seq<char>; }
+impl StartsWithS for str { open spec fn chars(&self) -> Seq<char> { self@ } #[verifier::external_body] fn starts_with_s(&self, p: &str) -> (r: bool) { unimplemented!() } }
 #[verifier::external_body]
 pub fn err_custom() -> (r: ErrS) { unimplemented!() }
 
